@@ -258,6 +258,30 @@ def flux_clause(vals, kind, flux, clause, comp=None, normal=None):
         ref = phys_flux(kind, WL if side == "L" else WR, vals, normal)
         show(kind=kind, flux=flux, clause=clause, WL=WL, WR=WR, F=F, upwind_flux=ref)
         return close(F, ref)
+    if clause == "hll-value":
+        # the flux value against the HLL formula with the wave-speed estimates of the statement (C10): Rusanov
+        # cmax = max(|uL|+cL, |uR|+cR); hll: sL = min(0, uL-cL, uR-cR), sR = max(0, uL+cL, uR+cR); hlle: Einfeldt (with Roe)
+        F = numflux(model, kind, flux, WL, WR, normal)
+        fL, fR = phys_flux(kind, WL, vals, normal), phys_flux(kind, WR, vals, normal)
+        UL, UR = prim_to_cons(kind, WL, vals), prim_to_cons(kind, WR, vals)
+        if kind == "shallowwater":
+            g = num(vals.get("g"), 9.81)
+            cL, cR = math.sqrt(g * WL[0]), math.sqrt(g * WR[0])
+        else:
+            g = num(vals.get("gamma"), 1.4)
+            cL, cR = math.sqrt(g * WL[2] / WL[0]), math.sqrt(g * WR[2] / WR[0])
+        uL, uR = WL[1], WR[1]
+        if flux == "rusanov":
+            sR = max(abs(uL) + cL, abs(uR) + cR)
+            sL = -sR
+        elif flux == "hll":
+            sL, sR = min(0.0, uL - cL, uR - cR), max(0.0, uL + cL, uR + cR)
+        else:
+            lm, lp, rm, rp_, tm, tp = roe_speeds(kind, WL, WR, vals, normal)
+            sL, sR = min(0.0, tm, lm), max(0.0, tp, rp_)
+        ref = [(sR * a - sL * b + sL * sR * (ur - ul)) / (sR - sL) for a, b, ul, ur in zip(fL, fR, UL, UR)]
+        show(kind=kind, flux=flux, clause=clause, WL=WL, WR=WR, F=F, hll_formula=ref, sL=sL, sR=sR)
+        return close(F, ref)
     raise ValueError(clause)
 
 
@@ -1685,4 +1709,27 @@ def units_clause(vals, kind, flux, num, limiter, bcL, bcR):
                     ok = False
                 if not ok:
                     return False
+    return ok
+
+
+def timestep2d_clause(vals):
+    """fvm2dcart.calc_timestep on stretched and square cells against CFL*dx*dy/(dx+dy)/(|V|+c)"""
+    import flowdyn.mesh2d as mesh2d, flowdyn.modeldisc as md, flowdyn.modelphy.euler as eu, flowdyn.xnum as xnum, flowdyn.field as field
+    ok = True
+    for nx, ny, lx, ly in ((4, 4, 1.0, 1.0), (20, 5, 1.0, 1.0), (5, 20, 1.0, 1.0), (12, 7, 3.0, 0.5)):
+        model = eu.euler2d(gamma=1.4)
+        msh = mesh2d.mesh2d(nx, ny, lx, ly)
+        per = {"type": "per"}
+        disc = md.fvm2dcart(model, msh, xnum.extrapol2d1(), {"left": per, "right": per, "bottom": per, "top": per})
+        rng = np.random.default_rng(nx + ny)
+        n = nx * ny
+        rho, p = 1 + 0.3 * rng.uniform(-1, 1, n), 1 + 0.3 * rng.uniform(-1, 1, n)
+        V = 0.4 * rng.uniform(-1, 1, (2, n))
+        f = field.fdata(model, msh, model.prim2cons([rho, V, p]))
+        dt = np.asarray(disc.calc_timestep(f, 0.7), dtype=float)
+        dx, dy = lx / nx, ly / ny
+        want = 0.7 * dx * dy / (dx + dy) / (np.sqrt(V[0] ** 2 + V[1] ** 2) + np.sqrt(1.4 * p / rho))
+        if dt.shape != (n,) or not np.allclose(dt, want, rtol=1e-12, atol=0):
+            show(nx=nx, ny=ny, lx=lx, ly=ly, timestep=dt.reshape(-1)[:3].tolist(), expected=want[:3].tolist())
+            ok = False
     return ok
